@@ -10,8 +10,10 @@ import (
 	"strings"
 	"sync"
 
+	"github.com/trustbloc/sidetree-go/pkg/canonicalizer"
 	"github.com/trustbloc/sidetree-go/pkg/commitment"
 	"github.com/trustbloc/sidetree-go/pkg/docutil"
+	"github.com/trustbloc/sidetree-go/pkg/encoder"
 	"github.com/trustbloc/sidetree-go/pkg/hashing"
 	"github.com/trustbloc/sidetree-go/pkg/jws"
 	"github.com/trustbloc/sidetree-go/pkg/versions/1_0/operationparser"
@@ -185,6 +187,12 @@ func genC06(seed int64, tier string) []caseOut {
 		}
 		h, herr := hashing.CalculateModelMultihash([]byte(text), code)
 		id, iderr := docutil.CalculateID("did:ns", []byte(text), code)
+		// the multihash octets of the same value, held while everything below computes other hashes:
+		// what a call returned stays what it was (encoded only at the end)
+		var held []byte
+		if canon, cerr := canonicalizer.MarshalCanonical([]byte(text)); cerr == nil && herr == nil {
+			held, _ = hashing.ComputeMultihash(code, canon)
+		}
 		var checks []string
 		var recs []interface{}
 		addCheck := func(kind, vtext, hash string, expect bool) {
@@ -217,6 +225,9 @@ func genC06(seed int64, tier string) []caseOut {
 				label += ",malformed:" + m[0]
 			}
 		}
+		if held != nil {
+			h = encoder.EncodeToString(held)
+		}
 		hh := sha256.Sum256([]byte(text + label))
 		out = append(out, caseOut{
 			Coq:    fmt.Sprintf("(mk_c06 %s %s %s %s %s)", cStr(text), cZu(uint64(code)), optStr(h, herr), optStr(id, iderr), cList(checks)),
@@ -224,6 +235,48 @@ func genC06(seed int64, tier string) []caseOut {
 			Label:  label,
 			NonTri: fmt.Sprintf("%x", hh[:8]),
 		})
+	}
+	// the same hashes computed by several goroutines at once (each its own value): a result that is
+	// not the sequential one is emitted as that value's hash and judged like any other
+	{
+		const workers, rounds = 8, 300
+		texts := make([]string, workers)
+		seq := make([]string, workers)
+		for k := range texts {
+			texts[k] = fmt.Sprintf(`{"worker":%d,"payload":"%s"}`, k, strings.Repeat(string(rune('a'+k)), 10+k))
+			seq[k], _ = hashing.CalculateModelMultihash([]byte(texts[k]), []uint{18, 19}[k%2])
+		}
+		got := make([]string, workers)
+		var wg sync.WaitGroup
+		for k := 0; k < workers; k++ {
+			wg.Add(1)
+			go func(k int) {
+				defer wg.Done()
+				defer func() {
+					if recover() != nil {
+						got[k] = "<panic>"
+					}
+				}()
+				got[k] = seq[k]
+				for j := 0; j < rounds; j++ {
+					h, err := hashing.CalculateModelMultihash([]byte(texts[k]), []uint{18, 19}[k%2])
+					if err != nil || h != seq[k] || hashing.IsValidModelMultihash([]byte(texts[k]), seq[k]) != nil {
+						got[k] = "<differs under concurrency>" + h
+						return
+					}
+				}
+			}(k)
+		}
+		wg.Wait()
+		for k := 0; k < workers; k++ {
+			hh := sha256.Sum256([]byte("conc" + texts[k]))
+			out = append(out, caseOut{
+				Coq:    fmt.Sprintf("(mk_c06 %s %s %s %s [])", cStr(texts[k]), cZu(uint64([]uint{18, 19}[k%2])), optStr(got[k], nil), optStr("did:ns:"+seq[k], nil)),
+				Rec:    map[string]interface{}{"value": texts[k], "concurrent_hash": got[k], "sequential_hash": seq[k]},
+				Label:  "concurrent",
+				NonTri: fmt.Sprintf("%x", hh[:8]),
+			})
+		}
 	}
 	return out
 }
@@ -262,7 +315,25 @@ func genC04(seed int64, tier string) []caseOut {
 		}
 		code := []uint{18, 19, 18, 19, 17, 0}[r.Intn(6)]
 		m := k.jwk()
-		if i%7 == 3 {
+		if i < 8 {
+			// systematic: keys whose reveal-value digest begins with one of the two multihash header
+			// octets of its algorithm (found by varying the nonce): reading the digest back out of the
+			// reveal value must strip the header as a prefix, not as a set of octets
+			code = []uint{18, 19}[i%2]
+			want := [][]byte{{0x12, 0x20}, {0x13, 0x40}}[i%2][(i/2)%2]
+			fr := rand.New(rand.NewSource(int64(4000 + i)))
+			for try := 0; try < 20000; try++ {
+				nb := make([]byte, 16)
+				rngReader{fr}.Read(nb)
+				k.nonce = b64(nb)
+				m = k.jwk()
+				raw, _ := b64dec(revealOf(m, uint64(code)))
+				if len(raw) > 2 && raw[2] == want {
+					break
+				}
+			}
+		}
+		if i >= 8 && i%7 == 3 {
 			// RSA-shaped JWK (members n, e and possibly nonce: "n" is a proper prefix of "nonce")
 			kind = "RSA"
 			nb := make([]byte, 64+r.Intn(200))
